@@ -3,6 +3,7 @@ from pv import judges, lifecycle, plans, programs
 
 ID = 'C01'
 TITLE = 'lifecycle graph / terminal finality'
+ANCHORS = ['plumpy.base.state_machine:StateMachine._exit_current_state', 'plumpy.base.state_machine:State.exit', 'plumpy.processes:Process.transition_failed', 'plumpy.processes:Process.callback_excepted', 'plumpy.processes:Process.fail', 'plumpy.processes:Process.kill', 'plumpy.processes:Process.pause', 'plumpy.processes:Process.play']
 LEVEL = 'exploration'
 TECHNIQUE = 'runtime monitoring: state invariant sampled after every event-loop callback + ENTERED_STATE hook stream, under enumerated request placements'
 RULE = ('programs x placements of K<=2 (thorough: sampled K=3) requests from {pause,play,kill,resume,fail,late ok/raising callback} at every '
